@@ -90,7 +90,44 @@ def stream_agreement(ctx, enc, data, chunks):
     ctx.judge(ok, case, sig, "C20:modes-cut-differently", None, {k: repr(v) for k, v in cuts.items()})
 
 
+def input_agreement(ctx, case):
+    """the same bytes through three real Input objects, one per naming mode: same number of
+    keypresses, and 'bytes' naming hands back exactly the bytes - also where Input has to recover
+    from a decoder failure (a sequence prefix followed by a non-ASCII character)"""
+    from .c03_e2e import Session
+    enc, data = case["encoding"], case["data"]
+    outs = {}
+    for mode in keysengine.MODES:
+        sess = Session(enc, mode, None)
+        try:
+            try:
+                outs[mode] = sess.read_all(data)
+            except TimeoutError:
+                ctx.inconclusive_because("pty did not deliver bytes within 5 s")
+                return
+            except Exception as ex:  # noqa
+                outs[mode] = ("raise", type(ex).__name__)
+        finally:
+            sess.close()
+    sig = ("C20", "input", enc, data)
+    shapes = {m: (o if isinstance(o, tuple) else len(o)) for m, o in outs.items()}
+    problems = []
+    if len(set(map(repr, shapes.values()))) != 1:
+        problems.append("modes disagree on the number of keypresses / on failing: %r" % (shapes,))
+    b = outs.get("bytes")
+    if isinstance(b, list):
+        if not all(isinstance(k, bytes) for k in b):
+            problems.append("'bytes' naming returned a non-bytes key: %r" % ([k for k in b if not isinstance(k, bytes)][:3],))
+        elif not data.startswith(b"".join(b)) or len(data) - len(b"".join(b)) >= 8:
+            problems.append("'bytes' naming did not return the bytes given")
+    ctx.judge(not problems, case, sig, "C20:input-modes-disagree", None, {m: repr(o)[:80] for m, o in outs.items()}, problems,
+              nontrivial=len(data) > 1)
+    ctx.count("input_level_mode_agreement")
+
+
 def run_case(ctx, case):
+    if case.get("kind") == "input-agreement":
+        return input_agreement(ctx, case)
     kind = case["kind"]
     if kind == "node":
         from curtsies import events
@@ -189,6 +226,13 @@ def run(ctx):
             stream_agreement(ctx, enc, data, chunks)
             ctx.count("random_streams")
     if ctx.shard[0] == 0:
+        facts8 = Facts("utf-8")
+        for i in range(40 if ctx.quick else 1500):
+            units = [units_for(facts8, rng) for _ in range(rng.randint(1, 5))]
+            if i % 2:
+                units.insert(rng.randint(0, len(units)), rng.choice([b"\x1b", b"\x1b[", b"\x1bO"]) +
+                             chr(rng.choice([0xE9, 0x20AC, 0x1F600])).encode("utf-8"))
+            input_agreement(ctx, {"kind": "input-agreement", "encoding": "utf-8", "data": b"".join(units)})
         judge_tables(ctx)
         for name in config_names():
             judge_config(ctx, name, producible)
